@@ -141,7 +141,7 @@ Lemma act_names k outs ins news : act k outs ins = Some news -> map fst news = o
 Proof.
   destruct k as [c| |content]; cbn [act].
   - destruct c.
-    + destruct outs as [|o rest]; [discriminate|]. destruct (all_files ins); [|discriminate].
+    + destruct outs as [|o rest]; [discriminate|]. destruct (all_files (src_ins ins)); [|discriminate].
       intros H. injection H as <-. cbn [map fst]. rewrite map_map. cbn [fst]. rewrite map_id. reflexivity.
     + destruct outs as [|o [|o2 rest]]; try discriminate. intros H. injection H as <-. reflexivity.
     + destruct outs as [|o [|o2 rest]]; try discriminate. intros H. injection H as <-. reflexivity.
